@@ -5,7 +5,7 @@ jobs=$1; list=$2
 mkdir -p /tmp/par
 run_one() {
   line="$1"; set -- $line; seed="$1"; shift
-  id=$(basename "$seed"); W=/tmp/par/$id
+  id=$(basename "$seed"); W=${PAR_ROOT:-/tmp/par}/$id
   rm -rf "$W"; mkdir -p "$W"
   rsync -a --exclude .git --exclude replays --exclude evidence /verif/ "$W/verif/"
   git -C /repo worktree add -q --detach "$W/repo" HEAD 2>/dev/null
